@@ -162,6 +162,23 @@ def run_check(pid, units, tier, seed, props_files=None, default_imports='', leve
                 res = C.coq_eval([all_cases[i][1][which] for i in idxs], imp, f'{pid}_{which}{gi}')
                 for i, r in zip(idxs, res):
                     store[i] = r
+        # specifications given as a reference run of the implementation itself (isolation: the instance running alone)
+        si_idx = [i for i, (u, c) in enumerate(all_cases) if c.get('spec_impl')]
+        if si_idx:
+            res = run_impl([all_cases[i][1]['spec_impl'] for i in si_idx], pid + '_specimpl')
+            for i, r in zip(si_idx, res):
+                sres[i] = r
+        # whole-step cases are evaluated by the extracted model (OCaml), one driver line per case
+        line_idx = [i for i, (u, c) in enumerate(all_cases) if c.get('model_line')]
+        if line_idx and model_ok:
+            C.make(['gen/step.vo', 'theories/Lib/Enc.vo'], jobs=16)
+            okb, blog = C.build_armsim()
+            if okb:
+                res = C.armsim_run([all_cases[i][1]['model_line'] for i in line_idx])
+                for i, r in zip(line_idx, res):
+                    mres[i] = r
+            else:
+                log.append('armsim build failed: ' + blog[-400:])
         for k, ((u, c), ir) in enumerate(zip(all_cases, impl)):
             corr['cases'] += 1
             key = c.get('label', u.name)
@@ -175,18 +192,18 @@ def run_check(pid, units, tier, seed, props_files=None, default_imports='', leve
             if ir == [9, 9]:
                 corr['off_domain'] += 1
                 continue
-            if c['model'] and mr is None:
+            if (c['model'] or c.get('model_line')) and mr is None:
                 corr['model_unavailable'] += 1
             if mr is not None and mr != ir:
                 corr['impl_vs_model_disagreements'] += 1
                 mismatches.append({'unit': u.name, 'kind': 'impl-vs-model', 'label': c.get('label'), 'case': c['impl'], 'impl': ir, 'model': mr,
-                                   'model_term': c['model']})
-            if c['spec'] and sr is None:
+                                   'model_term': c['model'] or c.get('model_line')})
+            if (c['spec'] or c.get('spec_impl')) and sr is None:
                 corr['spec_unavailable'] = corr.get('spec_unavailable', 0) + 1
             if sr is not None and sr != ir:
                 corr['impl_vs_spec_disagreements'] += 1
                 mismatches.append({'unit': u.name, 'kind': 'impl-vs-spec', 'label': c.get('label'), 'case': c['impl'], 'impl': ir, 'spec': sr,
-                                   'spec_term': c['spec']})
+                                   'spec_term': c['spec'] or 'reference run of the implementation'})
             if len(samples) < 6 and (corr['cases'] % 97 == 1):
                 samples.append({'unit': u.name, 'case': c['impl'], 'impl': ir, 'model': mr, 'spec': sr})
     # ---- verdicts
